@@ -19,7 +19,8 @@
              Identifier of the previous one, and a Code-Reject must not repeat that of the previous Code-Reject
              (RFC 1661 5.1, 5.6); otherwise it prints INADMISSIBLE:<why> in that step.  Every other observable
              is the model's own.  Without an implementation file the policy of /repo HEAD (f.id++ from 0) is used.
-   argv[3] is ignored: there is one model, the behaviour of /repo HEAD (all findings fixed).
+   argv[3] = variant: repaired | echo_unfixed (kind sess only: the host's LCP Echo-Reply depends on the session
+             phase instead of on the LCP automaton being Opened - finding lcp-echo-reply-phase).
    Every step of the repaired variant is also re-checked against the RFC table by the extracted
    [conformsb] (guards the extraction); a failure prints MODELBUG. *)
 let z_of_int (i : int) : z = if i = 0 then Z0 else if i > 0 then Zpos (pos_of_int i) else Zneg (pos_of_int (-i))
@@ -65,6 +66,7 @@ let () =
   let impl_lines = if Array.length Sys.argv > 2 && Sys.argv.(2) <> "-" then read_lines Sys.argv.(2) else [] in
   let impl_tbl = Array.of_list impl_lines in
   let line_no = ref (-1) in
+  let echo_fixed = not (Array.length Sys.argv > 3 && Sys.argv.(3) = "echo_unfixed") in
   let vname = "repaired" in
   let v = { fix_cells = true; fix_ncp = true } in
   let restore_fixed = true in
@@ -181,6 +183,77 @@ let () =
             (int_of_z (st_num (!s).s_ip6.st0)) (if evs = [] then "-" else String.concat "," evs) err) ops in
         print_endline (if outl = [] then "empty" else String.concat " " outl)
       with Failure m -> print_endline ("badcase " ^ m) | Not_found -> print_endline "badcase nth")
+    | "sess" :: pool :: ops ->
+      (* the session layer (Sess.v):  UP | F<proto hex>.<code>.<id|c|s>.<cls>.<data hex|-> | AUTH+ | AUTH- | TL | TI | TV
+         | CLOSE | TERM;  per op  <phase>/<lcp>/<ipcp>/<ipv6cp>/<ipcpOpen><ipv6cpOpen><linkEnded>:<events>          *)
+      (try
+        let v = { fix_cells = true; fix_ncp = true } in
+        let chosen_of tag =
+          List.concat_map (fun tok ->
+            match String.split_on_char ':' tok with
+            | [_; acts] ->
+              filter_map (fun a -> match String.split_on_char '.' a with
+                | t :: ("scr" | "str" | "scj") :: id :: _ when t = tag ->
+                  (try Some (int_of_string id land 255) with _ -> None)
+                | _ -> None) (String.split_on_char ',' acts)
+            | _ -> []) itoks |> Array.of_list in
+        let pick_of tag =
+          let ch = chosen_of tag in
+          fun (k : nat) ->
+            let k = int_of_nat k in
+            if k < Array.length ch then z_of_int ch.(k)
+            else z_of_int (((if Array.length ch = 0 then 0 else ch.(Array.length ch - 1)) + (k - Array.length ch) + 1) land 255) in
+        let c = { s_cfg = default_cfg; has_v4 = (pool <> "0"); echo_fixed = echo_fixed } in
+        let s = ref (sess_init (pick_of "L") (pick_of "I") (pick_of "V")) in
+        let tag_of = function TLcp -> "L" | TIpcp -> "I" | TIp6 -> "V" | TNone -> "" in
+        let phase_num = function PhDead -> 0 | PhEstablish -> 1 | PhAuthenticate -> 2 | PhNetwork -> 3 | PhOpen -> 4
+                               | PhTerminate -> 5 | PhLACTunnelPending -> 6 | PhLACTunneled -> 7 in
+        let show = function
+          | OFsm (t, a) ->
+            (match a with
+             | Scr i -> Some (Printf.sprintf "%s.scr.%d" (tag_of t) (int_of_z i))
+             | Sca i -> Some (Printf.sprintf "%s.sca.%d" (tag_of t) (int_of_z i))
+             | Scn i -> Some (Printf.sprintf "%s.scn.%d" (tag_of t) (int_of_z i))
+             | Screj i -> Some (Printf.sprintf "%s.srj.%d" (tag_of t) (int_of_z i))
+             | Str i -> Some (Printf.sprintf "%s.str.%d" (tag_of t) (int_of_z i))
+             | Sta i -> Some (Printf.sprintf "%s.sta.%d" (tag_of t) (int_of_z i))
+             | Scj (i, _, _) -> Some (Printf.sprintf "%s.scj.%d" (tag_of t) (int_of_z i))
+             | Ser i -> Some (Printf.sprintf "%s.ser.%d" (tag_of t) (int_of_z i))
+             | _ -> None)
+          | OChap cd -> Some (Printf.sprintf "chap.%d" (int_of_z cd))
+          | OEchoReply (i, tl) -> Some (Printf.sprintf "echoreply.%d.%s" (int_of_z i) (hex_of_zbytes tl))
+          | OProtoRejSent p -> Some (Printf.sprintf "protorejsent.%04x" (int_of_z p))
+          | OSessionOpen -> Some "open" in
+        let started = ref false in
+        let outl = List.map (fun op ->
+          let xop =
+            if op = "UP" then (started := true; XUp)
+            else if not !started then failwith "not started"
+            else if op = "AUTH+" then XAuth true else if op = "AUTH-" then XAuth false
+            else if op = "TL" then XTimeout TLcp else if op = "TI" then XTimeout TIpcp else if op = "TV" then XTimeout TIp6
+            else if op = "CLOSE" then XLcpClose else if op = "TERM" then XTerminate
+            else if op.[0] = 'F' then begin
+              match String.split_on_char '.' (String.sub op 1 (String.length op - 1)) with
+              | [pr; code; id; cl; data] ->
+                let proto = int_of_string ("0x" ^ pr) in
+                let y = (!s).sy in
+                let last = if proto = 0xc021 then int_of_z y.s_lcp.lastReq else if proto = 0x8021 then int_of_z y.s_ipcp.lastReq
+                           else if proto = 0x8057 then int_of_z y.s_ip6.lastReq else 0 in
+                let idv = match id with "c" -> last | "s" -> (last + 1) land 255 | x -> int_of_string x land 255 in
+                let d = if data = "-" then [] else zbytes_of_hex data in
+                let n = 4 + List.length d in
+                XFrame (z_of_int proto, List.map z_of_int [int_of_string code; idv; (n lsr 8) land 255; n land 255] @ d, cls_of cl)
+              | _ -> failwith "bad frame"
+            end else failwith ("bad op " ^ op) in
+          let (s1, outs1) = sess_step c v !s xop in
+          s := s1;
+          let evs = filter_map show outs1 in
+          let b x = if x then 1 else 0 in
+          Printf.sprintf "%d/%d/%d/%d/%d%d%d:%s" (phase_num s1.ph) (int_of_z (st_num s1.sy.s_lcp.st0))
+            (int_of_z (st_num s1.sy.s_ipcp.st0)) (int_of_z (st_num s1.sy.s_ip6.st0))
+            (b s1.ipcpOpen) (b s1.ip6Open) (b s1.linkEnded) (if evs = [] then "-" else String.concat "," evs)) ops in
+        print_endline (if outl = [] then "empty" else String.concat " " outl)
+      with Failure m -> print_endline ("badcase " ^ m))
     | kind0 :: mc :: mt :: ops ->
       (try
         let conc = (kind0 = "conc") in
